@@ -159,6 +159,13 @@ def inline_cases(tier):
                         for prefix in ("", "- ", "> "):
                             ws = WORDS[:pos] + [span] + WORDS[pos:]
                             cases.append((name, prefix + " ".join(ws) + "." + DEFS, dict(width=w, semantic=sem, cleanups=typo, smartquotes=typo, ellipses=typo)))
+    # code spans whose content holds an inner backtick run and a block-looking word: every width around the wrap point
+    for span in ("``a ` - b``", "`` x ` 1. y ``", "``c ` # d``", "```e `` > f```", "``g ` --- h``"):
+        for pos in (2, 4):
+            for w in range(8, 44, 1 if tier == "thorough" else 3):
+                for sem in (False, True):
+                    ws = WORDS[:pos] + [span] + WORDS[pos:]
+                    cases.append(("code_inner_special", " ".join(ws) + ".\n", dict(width=w, semantic=sem, cleanups=False)))
     return cases
 
 
